@@ -185,6 +185,12 @@ pub(super) trait DialectHandler: Any + Debug {
         self.except_all()
     }
 
+    /// Whether a WITH clause that contains a recursive CTE is spelled `WITH RECURSIVE`.
+    /// T-SQL has no such keyword (a CTE that refers to itself is recursive).
+    fn with_recursive_keyword(&self) -> bool {
+        true
+    }
+
     /// Support for CONCAT function.
     /// When not supported we fallback to use `||` as concat operator.
     fn has_concat_function(&self) -> bool {
@@ -473,6 +479,10 @@ impl DialectHandler for MsSqlDialect {
     }
 
     fn set_ops_distinct(&self) -> bool {
+        false
+    }
+
+    fn with_recursive_keyword(&self) -> bool {
         false
     }
 
